@@ -502,7 +502,11 @@ static double parse_double_from_buffer(const char* start, const char* end) {
             continue;
         }
 #endif
-        mantissa = mantissa * 10 + (*ptr - '0');
+        /* The mantissa is only used by the fast path (at most 15 digits); do not let
+         * longer literals overflow int64_t */
+        if (digit_count < 18) {
+            mantissa = mantissa * 10 + (*ptr - '0');
+        }
         digit_count++;
         ptr++;
     }
@@ -523,7 +527,9 @@ static double parse_double_from_buffer(const char* start, const char* end) {
                 continue;
             }
 #endif
-            mantissa = mantissa * 10 + (*ptr - '0');
+            if (digit_count + frac_digits < 18) {
+                mantissa = mantissa * 10 + (*ptr - '0');
+            }
             frac_digits++;
             ptr++;
         }
